@@ -22,6 +22,7 @@ import (
 	"github.com/projecteru2/core/resource/cobalt"
 	"github.com/projecteru2/core/resource/plugins/cpumem"
 	cpumemtypes "github.com/projecteru2/core/resource/plugins/cpumem/types"
+	"github.com/projecteru2/core/rpc"
 	"github.com/projecteru2/core/store"
 	"github.com/projecteru2/core/store/etcdv3"
 	"github.com/projecteru2/core/store/etcdv3/meta"
@@ -245,6 +246,8 @@ type coreInstance struct {
 }
 
 type cluWorld struct {
+	vib     *rpc.Vibranium
+	vibOf   *coreInstance
 	sim     *simrt.Sim
 	res     *Result
 	prop    string
